@@ -271,3 +271,54 @@ Section History2.
       destruct A as [->|[_ E2]]; [now symmetry|]. rewrite H in E2. discriminate.
   Qed.
 End History2.
+
+(** * Order independence of the canonical names *)
+Lemma highest_unique names n c1 c2 :
+  In c1 names -> In c2 names -> compat_spec_b n c1 = true -> compat_spec_b n c2 = true ->
+  (forall m, In m names -> compat_spec_b n m = true -> higher m c1 = false) ->
+  (forall m, In m names -> compat_spec_b n m = true -> higher m c2 = false) -> c1 = c2.
+Proof.
+  intros I1 I2 C1 C2 H1 H2. unfold compat_spec_b in C1, C2. apply orb_true_iff in C1, C2.
+  destruct (same_track n n) eqn:Tn.
+  - assert (T1 : same_track n c1 = true) by (destruct C1 as [E|E]; auto; apply str_eqb_eq in E; now rewrite <- E).
+    assert (T2 : same_track n c2 = true) by (destruct C2 as [E|E]; auto; apply str_eqb_eq in E; now rewrite <- E).
+    assert (G12 : higher c1 c2 = false) by (apply H2; auto; unfold compat_spec_b; rewrite T1; apply orb_true_r).
+    assert (G21 : higher c2 c1 = false) by (apply H1; auto; unfold compat_spec_b; rewrite T2; apply orb_true_r).
+    destruct (same_track_version _ _ T1) as [v1 V1]. destruct (same_track_version _ _ T2) as [v2 V2].
+    pose proof (higher_false_both _ _ _ _ V1 V2 G12 G21) as ->.
+    apply same_track_version_inj; [|congruence]. rewrite same_track_sym in T1. apply (same_track_trans _ _ _ T1 T2).
+  - assert (forall x, same_track n x = false).
+    { intros x. destruct (same_track n x) eqn:E; auto. apply same_track_refl_of in E. congruence. }
+    destruct C1 as [E1|E1]; [|rewrite H in E1; discriminate]. destruct C2 as [E2|E2]; [|rewrite H in E2; discriminate].
+    apply str_eqb_eq in E1, E2. congruence.
+Qed.
+
+Section TwoOrders.
+  Variables ord ord' : list (str * id) -> list (str * id).
+  Variables (cf fuel cf' fuel' : nat) (tag tag' : N).
+  Variables l l' : list (str * (types * kind)).
+  Variables (a a' : agg) (s s' : st).
+  Hypothesis OFl : Forall (fun c : str * (types * kind) => owner_free (fst (snd c))) l.
+  Hypothesis OFl' : Forall (fun c : str * (types * kind) => owner_free (fst (snd c))) l'.
+  Hypothesis Hperm : forall n, In n (map fst l) <-> In n (map fst l').
+  Hypothesis Hrun : aggregate_all ord cf fuel (agg0 tag) st0 l 0 = inl (a, s).
+  Hypothesis Hrun' : aggregate_all ord' cf' fuel' (agg0 tag') st0 l' 0 = inl (a', s').
+
+  (** two successful histories over the same contributed names agree on every canonical name ... *)
+  Theorem canonical_order_indep n : In n (map fst l) -> Aggregator.canonical a n = Aggregator.canonical a' n.
+  Proof.
+    intros Hn. destruct (history_canonical_is_highest ord cf fuel tag l a s OFl Hrun n Hn) as [A1 [A2 [A3 _]]].
+    destruct (history_canonical_is_highest ord' cf' fuel' tag' l' a' s' OFl' Hrun' n (proj1 (Hperm n) Hn)) as [B1 [B2 [B3 _]]].
+    apply (highest_unique (map fst l) n); auto.
+    - now apply Hperm.
+    - intros m Hm. apply B3. now apply Hperm.
+  Qed.
+
+  (** ... and import the same set of names *)
+  Theorem import_names_order_indep k : In k (map fst (imports a)) -> In k (map fst (imports a')).
+  Proof.
+    intros Hk. destruct (history_imports_contributed ord cf fuel tag l a s OFl Hrun k Hk) as [Hn Hc].
+    rewrite <- Hc, (canonical_order_indep k Hn).
+    apply (history_redirects_total ord' cf' fuel' tag' l' a' s' OFl' Hrun'). now apply Hperm.
+  Qed.
+End TwoOrders.
